@@ -197,4 +197,82 @@ theorem decSInt_encSInt (w : IntW) (i : Int) (h : sintOk w i = true) (rest : Byt
     rw [varint_roundtrip _ _ (by decide) (zigzagEnc_lt _ (by decide) i hi.1 hi.2) rest]
     simp [bind, Except.bind, pure, Except.pure, zigzagDec_zigzagEnc]
 
+/-! ## the zigzag bit trick is the arithmetic zigzag -/
+
+theorem two_pow_split (w : Nat) (hw : 0 < w) : 2 ^ w = 2 * 2 ^ (w - 1) := by
+  rw [show w = (w - 1) + 1 by omega, Nat.pow_succ]; simp; omega
+
+theorem ushiftRight_top_eq_zero (w : Nat) (y : BitVec w) (h : y.toNat < 2 ^ (w - 1)) : y >>> (w - 1) = 0#w := by
+  apply BitVec.eq_of_toNat_eq
+  simp [BitVec.toNat_ushiftRight, Nat.shiftRight_eq_div_pow, Nat.div_eq_of_lt h]
+
+theorem zigzagEncBits_toNat (w : Nat) (hw : 0 < w) (x : BitVec w) :
+    (zigzagEncBits w x).toNat = zigzagEnc x.toInt := by
+  have hp := two_pow_split w hw
+  have hx := x.isLt
+  unfold zigzagEncBits
+  rw [BitVec.toInt_eq_msb_cond]
+  cases hm : x.msb
+  · have hlt : x.toNat < 2 ^ (w - 1) := by
+      have := BitVec.msb_eq_decide x; rw [hm] at this; simpa using this.symm
+    rw [BitVec.sshiftRight_eq_of_msb_false hm, ushiftRight_top_eq_zero w x hlt]
+    simp only [BitVec.xor_zero, BitVec.toNat_shiftLeft, Nat.shiftLeft_eq, Nat.pow_one]
+    have : x.toNat * 2 % 2 ^ w = x.toNat * 2 := Nat.mod_eq_of_lt (by omega)
+    simp [this, zigzagEnc]; omega
+  · have hge : 2 ^ (w - 1) ≤ x.toNat := by
+      have := BitVec.msb_eq_decide x; rw [hm] at this; simpa using this.symm
+    have hn : (~~~x).toNat < 2 ^ (w - 1) := by rw [BitVec.toNat_not]; omega
+    rw [BitVec.sshiftRight_eq_of_msb_true hm, ushiftRight_top_eq_zero w (~~~x) hn]
+    have h0 : ~~~(0#w) = BitVec.allOnes w := by
+      apply BitVec.eq_of_toNat_eq; simp [BitVec.toNat_allOnes]
+    rw [h0, BitVec.xor_allOnes, BitVec.toNat_not, BitVec.toNat_shiftLeft, Nat.shiftLeft_eq, Nat.pow_one]
+    have : x.toNat * 2 % 2 ^ w = x.toNat * 2 - 2 ^ w := by
+      rw [Nat.mod_eq_sub_mod (by omega)]; exact Nat.mod_eq_of_lt (by omega)
+    rw [this]
+    simp only [if_true, zigzagEnc]
+    generalize 2 ^ (w - 1) = P at *
+    generalize 2 ^ w = Q at *
+    have : ¬ (0 ≤ ((x.toNat : Int) - (Q : Int))) := by omega
+    simp only [this, if_false]
+    omega
+
+theorem zigzagDecBits_toInt (w : Nat) (hw : 0 < w) (u : BitVec w) :
+    (zigzagDecBits w u).toInt = zigzagDec u.toNat := by
+  have hp := two_pow_split w hw
+  have hu := u.isLt
+  unfold zigzagDecBits zigzagDec
+  have hand : (u &&& 1#w).toNat = u.toNat % 2 := by
+    rw [BitVec.toNat_and]
+    have : (1#w).toNat = 1 := by simp [BitVec.toNat_ofNat]; omega
+    rw [this, Nat.and_one_is_mod]
+  have hsh : (u >>> 1).toNat = u.toNat / 2 := by
+    simp [BitVec.toNat_ushiftRight, Nat.shiftRight_eq_div_pow]
+  by_cases he : u.toNat % 2 = 0
+  · have h1 : u &&& 1#w = 0#w := by apply BitVec.eq_of_toNat_eq; rw [hand, he]; simp
+    rw [h1]
+    simp only [BitVec.neg_zero, BitVec.xor_zero, he, if_true]
+    rw [BitVec.toInt_eq_msb_cond]
+    have hm : (u >>> 1).msb = false := by
+      rw [BitVec.msb_eq_decide, hsh]; simp; omega
+    simp [hm, hsh]
+  · have h1 : u &&& 1#w = 1#w := by
+      apply BitVec.eq_of_toNat_eq; rw [hand]
+      have : (1#w).toNat = 1 := by simp [BitVec.toNat_ofNat]; omega
+      rw [this]; omega
+    have hneg : -(1#w) = BitVec.allOnes w := by
+      apply BitVec.eq_of_toNat_eq
+      have : (1#w).toNat = 1 := by simp [BitVec.toNat_ofNat]; omega
+      rw [BitVec.toNat_neg, this, BitVec.toNat_allOnes]
+      exact Nat.mod_eq_of_lt (by omega)
+    rw [h1, hneg, BitVec.xor_allOnes]
+    simp only [he, if_false]
+    rw [BitVec.toInt_eq_msb_cond]
+    have hn : (~~~(u >>> 1)).toNat = 2 ^ w - 1 - u.toNat / 2 := by rw [BitVec.toNat_not, hsh]
+    have hm : (~~~(u >>> 1)).msb = true := by
+      rw [BitVec.msb_eq_decide, hn]; simp; omega
+    simp only [hm, if_true, hn]
+    generalize 2 ^ (w - 1) = P at *
+    generalize 2 ^ w = Q at *
+    omega
+
 end QbiceVerif.Codec
